@@ -106,7 +106,7 @@ CHECKS = {
         thorough=dict(shards=16, checks=1, per_test={"TestVerif_C05": 240000, "TestVerif_C05E": 30000}, timeout=5400),
         technique="stateful property-based testing (rapid) with independent file decoders (written from doc/LJH.md, the LJH3 layout and OFF 0.3.0) as round-trip oracle",
         rule="(E) the headers a START request produces: a real AnySource with generated sample rate (12 values, most with a period that is not a whole "
-             "number of ns), geometry, channel numbers/names, sub-frame parameters, decimation and projectors (or, in half of the cases, the real Triangle / SimPulse source configured and prepared as Start does) gets WriteControl START (any type "
+             "number of ns), geometry, channel numbers/names, sub-frame parameters, decimation and projectors (or, in half of the cases, the real Triangle / SimPulse / Lancero source configured and prepared as Start does; for Lancero the sub-frame parameters are taken from doc/LJH.md: divisions = rows, offset = row) gets WriteControl START (any type "
              "subset), 1-4 records per channel, STOP; every file is decoded and compared with the source's true parameters. "
              "(main) rapid-generated channel/geometry parameters (indices and geometry 0..65535, names without whitespace, 8 time bases, sub-frame "
              "divisions/offsets, 1-6 bases with arbitrary finite float64 projector/basis entries incl. +-MaxFloat64 and denormals), every "
